@@ -6,7 +6,7 @@ from harness.props import c03
 
 ID = "C17"
 ENTRY = "SearchArray.index(docs, truncate=...)"
-LEVEL = "other"
+LEVEL = "proof"
 LIMIT = 262143
 RULE = ("one or two very long documents of length limit-2 .. limit+5 and ~2x limit (limit = 262143) placed first / "
         "middle / last among short neighbours, marker terms and phrases on both sides of the limit (positions "
